@@ -141,3 +141,34 @@ claim("C20",
       "exhaustive fault injection (every query code and a cancel at every poll, absent/None reports) + random faulty histories.",
       "Coq proof (frame/erasure lemmas of the dispatch fold) + in-Coq differential correspondence with fault injection",
       "DESIGN.md 5/C20, 10", "Monitor codes 205/207/40 of the family are run-time checked only.")
+_EXEC = ("Tie: Exec/ExecGen.v and ExecGen2.v regenerated from executiongraph.py / conductor.py on every run (T-code; equality lemmas for the "
+         "hand-written summaries), histories generated adaptively against the real ExecutionGraph (40% through the real "
+         "Conductor.monitor_study loop, cancel via the lock file, cancel/submit/query faults), exhaustive tiny scopes, model observations = "
+         "implementation observations and the SAME trace monitor evaluated on the implementation's trace inside Coq; the theorems' "
+         "hypotheses (valid poll inputs) are asserted on every history.")
+claim("C01",
+      "Coq theorem for all graphs, configs and poll-input lists: the observable-trace monitor for C01 (every submission - main or restart, "
+      "scheduled or local - happens only when all parents have succeeded according to the ledger of delivered reports) is silent on the "
+      "model's own trace (prop_ok 1), via an inductive coupling between the model state and the ledger; companion C08 theorems show the "
+      "execution graph's parents are exactly the dependency sets. " + _EXEC,
+      "Coq proof (inductive invariant coupling state and observable ledger; monitor proved silent on the model) + in-Coq differential correspondence",
+      "DESIGN.md 5/C01, 10")
+claim("C03",
+      "Coq theorems for all graphs/configs/histories: monitor family 3 silent on the model trace (prop_ok 3): live jobs per the ledger never "
+      "exceed a non-zero throttle at any event (also inside the launch loop and restart handling), |in progress| <= throttle after every "
+      "poll, and with throttle 0 every staged step is submitted in the same poll. " + _EXEC,
+      "Coq proof (ledger coupling + slot arithmetic) + in-Coq differential correspondence",
+      "DESIGN.md 5/C03, 10")
+claim("C04",
+      "Coq theorems for all graphs/configs/histories: full monitor family 4 silent on the model trace (prop_ok 4: at most one live job per "
+      "step, queried set = live set, no resubmission after success or resolution, resolved rows stay resolved, row FINISHED iff succeeded, "
+      "no live job when a final verdict is returned), and the completed / in-progress / failed-or-cancelled sets stay disjoint. " + _EXEC,
+      "Coq proof (ledger coupling) + in-Coq differential correspondence",
+      "DESIGN.md 5/C04, 10")
+claim("C07",
+      "Coq theorems for all graphs/configs/histories: monitor family 7 silent on the model trace (prop_ok 7): after a cancel request (a poll "
+      "input) no submission of any kind, the first adapter call of that poll is cancel_jobs with exactly the live set, and the first poll "
+      "that ends with no live job returns CANCELLED. Cancel totality for empty job lists is checked against the real adapters in the "
+      "correspondence run (C07_no_crash is not a Coq theorem); draining is C05's liveness. " + _EXEC,
+      "Coq proof (ledger coupling) + in-Coq differential correspondence with cancel injection",
+      "DESIGN.md 5/C07, 10", "C07_no_crash (adapter return shapes) is checked at run time, not proved.")
